@@ -238,6 +238,11 @@ impl Verify for FixedLpc {
         for (t, v) in self.warm_up().iter().enumerate() {
             verify_sample_range!("warm_up[{t}]", *v, self.bits_per_sample())?;
         }
+        verify_true!(
+            "warm_up.len",
+            self.warm_up().len() == self.residual().warmup_length(),
+            "must be identical with the warm-up length of `residual`"
+        )?;
         self.residual()
             .verify()
             .map_err(|err| err.within("residual"))
@@ -253,6 +258,11 @@ impl Verify for Lpc {
         for (t, v) in self.warm_up().iter().enumerate() {
             verify_sample_range!("warm_up[{t}]", *v, self.bits_per_sample())?;
         }
+        verify_true!(
+            "warm_up.len",
+            self.warm_up().len() == self.residual().warmup_length(),
+            "must be identical with the warm-up length of `residual`"
+        )?;
         self.residual()
             .verify()
             .map_err(|err| err.within("residual"))
